@@ -5,7 +5,7 @@ From Coq Require Import Lia Sorted.
 From ID Require Import Base.Bytes Base.BytesFacts Model.Entry Model.Put Model.Tables Model.Bounds
   Model.FsStore Model.Replica Model.Ranger Proofs.EntryFacts Proofs.PutFacts Proofs.BoundsFacts
   Proofs.TblFacts Proofs.SortedTbl Proofs.RangerFacts Proofs.FsPutFacts Proofs.ConvergeFacts
-  Proofs.SplitFacts Proofs.SessionConverge Proofs.TerminateFacts Proofs.RangeFacts Proofs.RefineFacts.
+  Proofs.SplitFacts Proofs.SessionConverge Proofs.TerminateFacts Proofs.RangeFacts Proofs.RefineFacts Proofs.TerminateAll.
 
 (** ---- well-formedness travels with the values ---- *)
 Lemma om_put_wf S e : Forall wf_entry S -> wf_entry e -> Forall wf_entry (fst (om_put S e)).
@@ -203,4 +203,32 @@ Proof.
   exists TA', TB', ocA, ocB, tr. split; [exact RUN|]. split; [exact EQ|].
   intros x. fold A B in JA. rewrite (JA x). unfold join. rewrite reduce_spec.
   rewrite <- (reduce_union lA lB C x). apply in_reduce_ext. intros a. rewrite !in_app_iff, !reduce_spec, MA, MB. tauto.
+Qed.
+
+(** ---- the same for every split factor >= 2 ---- *)
+Theorem table_session_total_all EH MAXF mss k now ns TA TB :
+  (2 <= k)%N -> wf_records TA -> wf_records TB ->
+  let A := fs_all ns TA in let B := fs_all ns TB in
+  reduced A -> reduced B -> consistent (A ++ B) ->
+  (forall e, In e (A ++ B) -> vsync EH MAXF now ns e MISSING = true) ->
+  exists TA' TB' ocA ocB tr,
+    session prefix_succ EH MAXF mss k (steps_bound A B) now ns ns TA TB (mkOC 0 0) (mkOC 0 0)
+            (initial_message (fs_ops prefix_succ EH ns) TA) true [] = Some (TA', TB', ocA, ocB, tr) /\
+    (forall x, In x (fs_all ns TA') <-> In x (join A B)) /\
+    (forall x, In x (fs_all ns TB') <-> In x (join A B)) /\
+    fs_all ns TA' = fs_all ns TB'.
+Proof.
+  intros K2 WA WB A B RA RB C V.
+  destruct (list_session_total_all mss k (vsync EH MAXF now ns) A B K2 (fs_all_sorted ns TA WA) (fs_all_sorted ns TB WB) RA RB C V)
+    as (A' & B' & tr & RUN & JA & JB & SA' & SB').
+  assert (WM : wf_message (initial_message om_ops A)) by (intros p q [<-|[]] []).
+  pose proof (table_session_is_list_session EH MAXF mss k now ns (steps_bound A B) TA TB (mkOC 0 0) (mkOC 0 0)
+                (initial_message om_ops A) true [] WA WB WM) as T.
+  rewrite (initial_message_same EH ns TA WA). fold A.
+  destruct (session prefix_succ EH MAXF mss k (steps_bound A B) now ns ns TA TB (mkOC 0 0) (mkOC 0 0) (initial_message om_ops A) true [])
+    as [[[[[TA' TB'] ocA] ocB] tr']|].
+  - destruct T as (E & _ & _). fold A B in E. rewrite RUN in E. inversion E; subst.
+    exists TA', TB', ocA, ocB, tr'. repeat split; auto; try apply JA; try apply JB.
+    apply RefineFacts.ssorted_ext; auto. intros x. rewrite (JA x), (JB x). tauto.
+  - fold A B in T. rewrite RUN in T. discriminate.
 Qed.
